@@ -449,7 +449,7 @@ class ProgGen:
     """Random valid programs inside the closed feature set."""
 
     def __init__(self, r: random.Random, java_compiles=False, base_records=False, max_decls=9, names=None, inline_user_types=False,
-                 inline_p=0.12, user_p=0.35, async_p=0.2, min_methods=0, member_names=None, target_lists=None):
+                 inline_p=0.12, user_p=0.35, async_p=0.2, min_methods=0, member_names=None, target_lists=None, rich_codes=False):
         self.r = r
         self.java_compiles = java_compiles      # C07: stay inside what javac accepts (throws only same namespace, …)
         self.base_records = base_records
@@ -466,6 +466,9 @@ class ProgGen:
         # `TargetRotation`: records / interfaces / named functions get target lists from the whole lattice of lists (default: the
         # few lists of the older streams, drawn from `r`)
         self.target_lists = target_lists
+        # error codes with up to 4 parameters of primitive, optional, collection, enum, flags and record types (default: 0-2 parameters
+        # of primitive / enum types)
+        self.rich_codes = rich_codes
 
     def members(self, n):
         return self.r.sample(self.member_names, n)
@@ -524,8 +527,13 @@ class ProgGen:
                     d['flags'] = r.choice(['+cpp', '+java', '+objc', '+cppcli', '+cpp +java'])
             elif kind == 'error':
                 earlier = [x for x in decls if x['kind'] == 'enum']
-                d['codes'] = [{'name': cn, 'params': [(pn, self.dtype(earlier, depth=2, kinds=('enum',))) for pn in self.members(r.randint(0, 2))]}
-                              for cn in self.members(r.randint(1, 3))]
+                if self.rich_codes:
+                    earlier = [x for x in decls if x['kind'] in ('enum', 'flags', 'record')]
+                    d['codes'] = [{'name': cn, 'params': [(pn, self.dtype(earlier, depth=1)) for pn in self.members(r.choice([0, 1, 1, 2, 3, 4]))]}
+                                  for cn in self.members(r.randint(1, 4))]
+                else:
+                    d['codes'] = [{'name': cn, 'params': [(pn, self.dtype(earlier, depth=2, kinds=('enum',))) for pn in self.members(r.randint(0, 2))]}
+                                  for cn in self.members(r.randint(1, 3))]
                 d['ns'] = shared_ns
             elif kind == 'function':
                 earlier = [x for x in decls if x['kind'] in ('enum', 'flags', 'record', 'interface')]
